@@ -44,7 +44,7 @@ impl Out {
 }
 
 const BAD_URLS: &[&str] = &["", "not a url", "http://example.org", "redis://", "redis://h:notaport", "redis://h/notanumber", "redis://h:99999", "unix://", "redis+unix://", "rediss://", "redis://:@:/", "redis://h/1/2", "redis://h?protocol=resp9", "\u{0}", "redis://[::1", "redis://h\u{f6}st/\u{1F600}"];
-const GOOD_URLS: &[&str] = &["redis://127.0.0.1", "redis://127.0.0.1:7000/2", "redis://user:pw@localhost:6380/1", "redis://:pw@h", "redis://h?protocol=resp3", "unix:///tmp/redis.sock", "redis+unix:///tmp/r.sock?db=3&pass=x&user=u"];
+const GOOD_URLS: &[&str] = &["redis://[::1]:6379/0", "redis://us%40er:p%3Aw@h/0", "REDIS://h", "redis://h/", "redis://h/0?protocol=resp2", "redis://127.0.0.1", "redis://127.0.0.1:7000/2", "redis://user:pw@localhost:6380/1", "redis://:pw@h", "redis://h?protocol=resp3", "unix:///tmp/redis.sock", "redis+unix:///tmp/r.sock?db=3&pass=x&user=u"];
 
 // ------------------------------------------------------------------ pure rules
 
@@ -142,7 +142,8 @@ pub fn pure_rules(seed: u64, n: u64) -> Out {
 }
 
 fn gen_conn_info(rng: &mut Rng) -> ConnectionInfo {
-    let texts = ["", "h", "127.0.0.1", "h\u{f6}st", "with space", "a:b", "/path"];
+    let long = format!("{}\u{1F600}{}", "a".repeat(62), "z".repeat(200));
+    let texts: [&str; 12] = ["", "h", "127.0.0.1", "h\u{f6}st", "with space", "a:b", "/path", "::1", "p%40ss", "\u{0}", "null", long.as_str()];
     let addr = match rng.below(3) {
         0 => ConnectionAddr::Tcp(rng.pick(&texts).to_string(), *rng.pick(&[0u16, 1, 6379, 65535])),
         1 => ConnectionAddr::TcpTls { host: rng.pick(&texts).to_string(), port: *rng.pick(&[0u16, 6380, 65535]), insecure: rng.chance(1, 2) },
